@@ -7,10 +7,6 @@ import LolHtml.Lemmas.ScopeOps
 namespace LolHtml.Lemmas.Scope
 open LolHtml.Model.Handlers LolHtml.Model.Controller LolHtml.Spec.Scope
 
-/-- How many open elements keep the handlers of selector `h` active (with multiplicity, should a
-matcher report an id twice). -/
-def openCount (sp : List OpenElem) (h : HId) : Nat := (sp.map fun e => e.matched.count h).sum
-
 @[simp] theorem openCount_nil (h : HId) : openCount [] h = 0 := rfl
 @[simp] theorem openCount_cons (e : OpenElem) (sp : List OpenElem) (h : HId) :
     openCount (e :: sp) h = e.matched.count h + openCount sp h := by
